@@ -44,6 +44,12 @@ def gen_conditions(f):
 
 
 def run(ix, R):
+    _run(ix, R)
+    from rules.common import memo_obligation
+    memo_obligation(ix, R, 'M.memo', ['taurex/data/profiles/temperature/'], 'the temperature profiles')
+
+
+def _run(ix, R):
     base = ix.cls('taurex/exceptions.py::InvalidModelException')
     # ---- 1. NPoint
     site = NP + '::NPoint.check_profile'
@@ -318,6 +324,35 @@ def run(ix, R):
                                                                         'gen_covariance', 'correlate_temp', 'initialize_profile'))
     api_obligations(ix, R, '4.api', fns, 'temperature profile evaluation')
     api_obligations(ix, R, '4.api', ['taurex/util/util.py::movingaverage'], 'smoothing')
+    # moving average: a window longer than the array must give nothing (the profile then stays unsmoothed)
+    site = 'taurex/util/util.py::movingaverage'
+    with R.guard('3.movingaverage', 'ALG', site, 'moving average'):
+        f = ix.func(site)
+        fl = mkflow(ix, site)
+        pe = param_env(fl, f, ['a', 'n'])
+        r = one(fl.of('return'), 'return')
+        why = []
+        cs = spec(fl, 'cumsum(a)', pe)
+        if fl.tab.equal(r.value, spec(fl, 'cumsum(a)[n - 1:]/n', pe)):
+            st = [e for e in fl.of('store') if fl.tab.equal(e.target, spec(fl, 'cumsum(a)[n:]', pe))]
+            if len(st) != 1 or not fl.tab.equal(st[0].value, spec(fl, 'cumsum(a)[n:] - cumsum(a)[:-n]', pe)) or \
+                    st[0].guards or st[0].loops:
+                why.append('window sums are not cumsum[n:] - cumsum[:-n]')
+            if len(fl.of('store')) != 1:
+                why.append('%d stores' % len(fl.of('store')))
+        else:
+            at = atom_of(fl, r.value)
+            conv = at is not None and at.head == 'call' and at.extra[0].endswith('convolve')
+            guard = [g for e in fl.of('return') + fl.of('raise') for g in e.guards] + [g for g in r.guards]
+            sized = any(('len(' in g.text() or '.size' in g.text() or '.shape' in g.text()) for g in guard)
+            if not (conv and sized):
+                why.append('returns %s: neither the windowed cumulative-sum form, whose slice is empty when n exceeds '
+                           'len(a), nor a convolution guarded by a length test (np.convolve swaps its operands when '
+                           'the window is the longer one and returns a zero-padded average)' % fmt(fl, r.value)[:120])
+        R.check('3.movingaverage', 'ALG', site,
+                'movingaverage(a, n) = (cumsum(a)[n:] - cumsum(a)[:-n], preceded by cumsum(a)[n-1]) / n: len(a)-n+1 window '
+                'means, none when the window is longer than the array',
+                not why, key='; '.join(why), detail='; '.join(why), loc=f.loc(r.node))
     # exception hierarchy
     site = NP + '::InvalidTemperatureException'
     c = ix.cls(site)
@@ -326,6 +361,8 @@ def run(ix, R):
 
 
 MUTANTS = [
+    ('seed-C12A-convolve', 'taurex/util/util.py', "    ret = np.cumsum(a)\n    ret[n:] = ret[n:] - ret[:-n]\n    return ret[n - 1:] / n", "    return np.convolve(a, np.ones(n) / n, mode='valid')", '3.movingaverage'),
+    ('movavg-window', 'taurex/util/util.py', 'ret[n:] = ret[n:] - ret[:-n]', 'ret[n:] = ret[n:] - ret[:-n - 1]', '3.movingaverage'),
     ('npoint-lt', NP, 'if any((Ppt[i] <= Ppt[i + 1] for i in range(len(Ppt) - 1))):', 'if any((Ppt[i] < Ppt[i + 1] for i in range(len(Ppt) - 1))):', '1.npoint.check'),
     ('npoint-range', NP, 'if any((Ppt[i] <= Ppt[i + 1] for i in range(len(Ppt) - 1))):', 'if any((Ppt[i] <= Ppt[i + 1] for i in range(len(Ppt) - 2))):', '1.npoint.check'),
     ('npoint-slope-noabs', NP, 'abs((Tpt[i + 1] - Tpt[i]) / (np.log10(Ppt[i + 1]) - np.log10(Ppt[i])))', '(Tpt[i + 1] - Tpt[i]) / (np.log10(Ppt[i + 1]) - np.log10(Ppt[i]))', '1.npoint.check'),
